@@ -2,7 +2,7 @@ SPECIFICATION Spec
 CONSTANTS
   Nodes = {1, 2}
   MaxTerm = 2
-  AddrLens = {9}
+  AddrLens = {9, 12}
   MaxOps = 3
   InitThreshold = 9
 INVARIANTS ExportBehaviour
